@@ -560,6 +560,12 @@ def octet_samples(ctx, rng, length):
             out.append(bytes([255, 255, 255, 255]) + struct.pack("!H", port))
     if length >= 2:
         out.append(bytes(length - 2) + b"\xba\xc0")
+    if length >= 6:
+        # the BACnet/IP port range (0xBAC0..0xBACF) sitting at octets 5-6 of strings that are NOT six octets
+        # long, and just outside the range in six-octet ones: the printer's dotted form is for length 6 only
+        for port in (0xBABF, 0xBAC0, 0xBAC7, 0xBACF, 0xBAD0):
+            out.append(bytes([1, 2, 3, 4]) + struct.pack("!H", port) + bytes(range(7, 7 + length - 6)))
+            out.append(bytes([10, 0, 0, 1]) + struct.pack("!H", port) + bytes([0xBA, 0xC0][: length - 6]))
     n = 6 if ctx.quick else 200
     out += [bytes(rng.getrandbits(8) for _ in range(length)) for _ in range(n)]
     return out
